@@ -34,6 +34,11 @@ AttrCodes(a) == {Traces[tid].attrs[a][i] : i \in 1..Len(Traces[tid].attrs[a])}
 
 ValsOf(e) == [x \in {e.cs[i] : i \in 1..Len(e.cs)} |->
                 e.vs[CHOOSE i \in 1..Len(e.cs) : e.cs[i] = x]]
+(* mcs/mvs (empty unless it happened): the library took this per-zone packet for the tail of the array received
+   just before it and merged the two (dispatcher.detect_array_fragment): the message it *stores* is an array over
+   the zones of both.  Only the transcription (drift) is told; for the contract the packet is what was received. *)
+MergedValsOf(e) == [x \in {e.mcs[i] : i \in 1..Len(e.mcs)} |->
+                      e.mvs[CHOOSE i \in 1..Len(e.mcs) : e.mcs[i] = x]]
 
 TInit ==
   /\ tid \in 1..Len(Traces)
@@ -86,8 +91,9 @@ TStep ==
   /\ LET e == Ev(l) IN
      /\ now' = e.t
      /\ IF e.k = "rx"
-        THEN LET m == Msg(e.code, e.form, ValsOf(e), e.t, e.life) IN
-             /\ slot' = StoreEffect(slot, m)
+        THEN LET m == Msg(e.code, e.form, ValsOf(e), e.t, e.life)
+                 ms == IF Len(e.mcs) = 0 THEN m ELSE Msg(e.code, "A", MergedValsOf(e), e.t, e.life) IN
+             /\ slot' = StoreEffect(slot, ms)
              /\ last' = StoreEffect(last, m)
              /\ allm' = Append(allm, m)
              /\ UNCHANGED seenExp
